@@ -31,6 +31,9 @@ use gethostname::gethostname;
 use std::sync::Arc;
 use std::time as stdtime;
 
+#[cfg(rssched_verif)]
+pub mod verif_hooks;
+
 pub fn solve_instance(input_data: serde_json::Value) -> serde_json::Value {
     let start_time = stdtime::Instant::now();
     let network = load_rolling_stock_problem_instance_from_json(input_data);
@@ -40,6 +43,8 @@ pub fn solve_instance(input_data: serde_json::Value) -> serde_json::Value {
         network.size(),
         start_time.elapsed().as_secs_f32()
     );
+    #[cfg(rssched_verif)]
+    verif_hooks::stage(verif_hooks::Stage::Loaded(network.clone()));
 
     let objective = Arc::new(objective::build());
 
@@ -56,6 +61,10 @@ pub fn solve_instance(input_data: serde_json::Value) -> serde_json::Value {
         SwapInfo::NoSwap,
         "Result from min cost flow solver".to_string(),
     );
+    #[cfg(rssched_verif)]
+    verif_hooks::stage(verif_hooks::Stage::StartSchedule(
+        start_schedule_with_info.get_schedule().clone(),
+    ));
 
     let solution = if network.maintenance_considered() {
         println!("\nStarting local search:\n");
@@ -74,6 +83,11 @@ pub fn solve_instance(input_data: serde_json::Value) -> serde_json::Value {
         println!("\nMaintenance is not considered, returning MinCostFlowSolver solution as final solution");
         objective.evaluate(start_schedule_with_info.clone())
     };
+
+    #[cfg(rssched_verif)]
+    verif_hooks::stage(verif_hooks::Stage::LocalSearchResult(
+        solution.solution().get_schedule().clone(),
+    ));
 
     // optimize transitions
     println!("\nOptimizing transitions:");
@@ -98,8 +112,16 @@ pub fn solve_instance(input_data: serde_json::Value) -> serde_json::Value {
 
         optimized_transitions.insert(vehicle_type, improved_transition);
     }
+    #[cfg(rssched_verif)]
+    verif_hooks::stage(verif_hooks::Stage::OptimizedTransitions(
+        optimized_transitions.clone(),
+    ));
     let schedule_with_optimized_transitions =
         schedule.set_next_day_transitions(optimized_transitions);
+    #[cfg(rssched_verif)]
+    verif_hooks::stage(verif_hooks::Stage::ScheduleWithOptimizedTransitions(
+        schedule_with_optimized_transitions.clone(),
+    ));
     println!(
         "Transition optimized (elapsed time: {:0.2}sec)",
         start_time_transition_optimization.elapsed().as_secs_f32()
@@ -122,6 +144,8 @@ pub fn solve_instance(input_data: serde_json::Value) -> serde_json::Value {
     let runtime_duration = end_time.duration_since(start_time);
 
     let final_schedule = final_solution.solution().get_schedule();
+    #[cfg(rssched_verif)]
+    verif_hooks::stage(verif_hooks::Stage::FinalSchedule(final_schedule.clone()));
 
     let overflow_depot = network.overflow_depot_idxs().0;
     for vehicle_type in network.vehicle_types().iter() {
